@@ -443,10 +443,17 @@ theorem identityTail_inj {i j : Identity} (hi : i.NulFreeDomain) (hj : j.NulFree
 theorem aad_inj {i j : Identity} (hi : i.NulFreeDomain) (hj : j.NulFreeDomain) (h : aad i = aad j) : i = j :=
   identityTail_inj hi hj (List.append_cancel_left h)
 
+/-- the extracted layout of the method segment is the terminated one: the *whole* encoded name, then the separator —
+    nothing is truncated or padded (a fixed-width field makes this, and with it the injectivity below, fail) -/
+theorem methodField_terminated (m : List Char) : methodField m = utf8 m ++ [Token.methodSep] := by
+  unfold methodField methodFieldWith
+  rw [if_pos (by decide)]
+
 /-- **`_compute_call_aad` is injective** in (method, identity) for NUL-free methods and domains -/
 theorem callAad_inj_bound {m m' : List Char} {i j : Identity} (hm : NulFree m) (hm' : NulFree m')
     (hi : i.NulFreeDomain) (hj : j.NulFreeDomain) (h : callAad true m i = callAad true m' j) : m = m' ∧ i = j := by
   unfold callAad at h
+  rw [methodField_terminated, methodField_terminated] at h
   have h1 := List.append_cancel_left h
   simp only [if_true, List.append_assoc, List.singleton_append] at h1
   have := append_sep_inj (x := Token.methodSep) hm hm' h1
